@@ -34,7 +34,12 @@ def PairState.str : PairState → String
 
 /-- A candidate. `addr` is a canonical transport address id (`ip*16 + port slot`), `rel` the related
 address (`none` = nil pointer as for host candidates, `some 0` = the empty related address of a
-discovered prflx candidate). -/
+discovered prflx candidate).  `form` is the spelling of the address literal the candidate was created
+from (0 = the canonical literal `netip.Addr.String` prints; 1 = another literal of the same address, e.g.
+the IPv4-mapped `::ffff:10.0.0.3` for `10.0.0.3`, or an expanded IPv6 literal): `Candidate.Address()` returns
+the literal as given, `addrPort()` keeps the 4-in-6 form, and the code compares sometimes the one
+(`transportAddressEqual`: `Address()` strings) and sometimes the canonical address (`addrPortEqual`,
+`toAddrPortKey`).  Local candidates and discovered peer-reflexive candidates are always form 0. -/
 structure Cand where
   uid : Nat
   ty : Nat            -- 1 host, 2 srflx, 3 prflx, 4 relay
@@ -45,12 +50,15 @@ structure Cand where
   rel : Option Nat := none
   lastRecv : Option Nat := none
   lastSent : Option Nat := none
+  form : Nat := 0
   deriving DecidableEq, Repr, Inhabited
 
 def ipOf (addr : Nat) : Nat := addr / 16
 
-/-- `candidateBase.transportAddressEqual` (network type, address, port; TCP type is always unspecified here). -/
-def Cand.taEqual (a b : Cand) : Bool := a.net == b.net && a.addr == b.addr
+/-- `candidateBase.transportAddressEqual` (network type, address, port; TCP type is always unspecified here).
+The code requires `addrEqual` of the resolved addresses (canonical) AND `c.Address() == other.Address()` as
+STRINGS, so two literals of one address are different transport addresses here. -/
+def Cand.taEqual (a b : Cand) : Bool := a.net == b.net && a.addr == b.addr && a.form == b.form
 
 /-- `candidateBase.Equal`. -/
 def Cand.equal (a b : Cand) : Bool := a.taEqual b && a.ty == b.ty && a.rel == b.rel
@@ -187,7 +195,8 @@ inductive Ev where
   | inboundData (now : Nat) (localAddr : Nat) (src : Nat) (len : Nat) (stunLike : Bool)
   | write (now : Nat) (len : Nat) (stunLike : Bool)
   | writeToPair (now : Nat) (id : Nat) (len : Nat) (stunLike : Bool)
-  | read
+  /-- `Conn.Read` into a caller buffer of `cap` bytes -/
+  | read (cap : Nat)
   | renominate (now : Nat) (lAddr : Nat) (rIdx : Nat) (value : Nat)
   | restart (now : Nat) (ufrag pwd : String)
   | close
@@ -219,7 +228,8 @@ def Agent.findPair (a : Agent) (l r : Cand) : Option Pair :=
     | some pl, some pr => pl.equal l && pr.equal r
     | _, _ => false
 
-/-- `Agent.findRemoteCandidate`: first remote of the network type with this canonical address. -/
+/-- `Agent.findRemoteCandidate`: first remote of the network type with this canonical address
+(`addrPortEqual(c.addrPort(), addr)` canonicalises BOTH sides: the literal form plays no role). -/
 def Agent.findRemote (a : Agent) (net : Nat) (addr : Nat) : Option Cand :=
   a.remotes.find? fun c => c.net == net && c.addr == addr
 
@@ -812,11 +822,15 @@ def step (a : Agent) : Ev → Agent × List Out
     | some l => a.inboundData now l src len
   | .write now len stunLike => a.write now len stunLike
   | .writeToPair now id len stunLike => a.writeToPair now id len stunLike
-  | .read =>
+  | .read cap =>
+    -- `packetio.Buffer.Read`: the head datagram is consumed whole; `min n cap` bytes are returned (and
+    -- counted by `Conn.Read`), with `io.ErrShortBuffer` when the caller's buffer is shorter than it
     if a.closed then (a, [.res "err:closed"]) else
     match a.rx with
     | [] => (a, [.res "empty"])
-    | n :: rest => ({ a with rx := rest, connBytesRecv := a.connBytesRecv + n }, [.res s!"read:{n}"])
+    | n :: rest =>
+      ({ a with rx := rest, connBytesRecv := a.connBytesRecv + min n cap },
+       [.res (if cap < n then s!"short:{cap}" else s!"read:{n}")])
   | .renominate now la ri value =>
     if !a.controlling then (a, [.res "err:notcontrolling"])
     else if !a.cfg.enableRenomination then (a, [.res "err:notenabled"])
